@@ -116,4 +116,15 @@ CASES = [
             return data"""),
     dict(name="twin-boxcox-power-operator", kind="twin", file=M,
          old="        return (np.power(data, self.lmbda) - 1) / self.lmbda", new="        return (data**self.lmbda - 1.0) / self.lmbda"),
+    # ---- formula algebra (R18.8 derivative / monotone, R18.9 round trip)
+    dict(name="manly-derivative-no-lmbda", file="normalizer/methods.py", expect="R18.8", old="        return np.exp(np.multiply(data, self.lmbda))\n", new="        return np.exp(data)\n"),
+    dict(name="boxcox-derivative-exponent", file="normalizer/methods.py", expect="R18.8", old="        return np.power(data, self.lmbda - 1)\n", new="        return np.power(data, self.lmbda) - 1\n"),
+    dict(name="modulus-denormalize-no-minus-1", file="normalizer/methods.py", expect="R18.9",
+         old="            (1 + self.lmbda * np.abs(data)) ** (1 / self.lmbda) - 1\n", new="            (1 + self.lmbda * np.abs(data)) ** (1 / self.lmbda)\n"),
+    dict(name="yeojohnson-normalize-neg-branch-exponent", file="normalizer/methods.py", expect=["R18.8", "R18.9"],
+         old="            res[~pos] = -(np.power(-data[~pos] + 1, 2 - self.lmbda) - 1) / (\n                2 - self.lmbda\n            )\n",
+         new="            res[~pos] = -(np.power(-data[~pos] + 1, self.lmbda - 2) - 1) / (\n                2 - self.lmbda\n            )\n"),
+    dict(name="twin-boxcox-derivative-operator", kind="twin", file="normalizer/methods.py", old="        return np.power(data, self.lmbda - 1)\n", new="        return data ** (self.lmbda - 1)\n"),
+    dict(name="twin-yeojohnson-derivative-reordered", kind="twin", file="normalizer/methods.py",
+         old="        return (np.abs(data) + 1) ** (np.sign(data) * (self.lmbda - 1))\n", new="        return np.power(1 + np.abs(data), (self.lmbda - 1) * np.sign(data))\n"),
 ]
